@@ -3,6 +3,7 @@ import gen_mapper as GM
 import gen_pipeline as GP
 import pipeline_check as PC
 import pipeline_engine as PE
+import genproof
 import vf
 
 
@@ -10,6 +11,14 @@ import gen_line as GL
 # label sets that differ only in where a would-be separator character falls: {a="pSq", bc="r"} and {a="p", bc="qSr"}; and keys that are FNV-64 twins
 SHIFTS = [b"|#a:p" + x + b"q,bc:r" for x in GL.SEPARATORS] + [b"|#a:p,bc:q" + x + b"r" for x in GL.SEPARATORS] + \
          [b"|#" + GL.FNV64_TWINS[0] + b":eu", b"|#" + GL.FNV64_TWINS[1] + b":eu", b"|#" + GL.FNV64_TWINS[1] + b":eu," + GL.FNV64_TWINS[0] + b":us"]
+
+
+# label sets that a length-prefixed encoding with one-byte lengths cannot tell apart: lengths that differ by 256 and a filler byte
+# whose code is the wrapped length of the neighbour ({a=f, bc=f*(256+f)} and {a=f*257, bc=f*f}, f the byte and its code)
+def _lp(f):
+    c = bytes([f])
+    return (b"|#a:" + c + b",bc:" + c * (256 + f), b"|#a:" + c * 257 + b",bc:" + c * f)
+LENGTH_TWINS = [_lp(f) for f in (65, 97, 48, 95)]
 
 
 def cfg_for(rnd):
@@ -31,6 +40,11 @@ def gen_case(rnd):
                            # a rule label only after escaping, and two label sets whose names / values concatenate to the same bytes
                            b"|#shard\xd9\xa3:tag", b"|#shard_:t,shard\xd9\xa3:u", "|#\u0440\u0435\u0433\u0438\u043e\u043d:eu,\u043a\u043b\u0430\u0441\u0442\u0435\u0440:a1".encode(),
                            b"|#a:a,bc:bc", b"|#ab:a,c:bc", b"|#a:ab,bc:c", b"|#" + b"K" * 70 + b":v"] + SHIFTS + SHIFTS)
+        if rnd.random() < 0.06:
+            # both members of a twin pair on one name, in one case
+            for t_ in rnd.choice(LENGTH_TWINS + [(SHIFTS[k], SHIFTS[k + len(GL.SEPARATORS)]) for k in range(len(GL.SEPARATORS))]):
+                lines.append((nm, [rnd.choice([b"1|c", b"2|g", b"4|ms"])], t_))
+            continue
         r = rnd.random()
         if r < 0.5 and not tags:
             samples = [rnd.choice([b"1|c", b"2|g", b"+3|g", b"4|ms", b"5|h", b"6|c|@0.5", b"7|ms|@0.5"]) for _ in range(rnd.randint(2, 4))]
@@ -80,7 +94,7 @@ def json_key(ops):
     return "\n".join(ops)
 
 
-def run(rep, tier, seed, replay):
+def _run(rep, tier, seed, replay):
     import random
     PAIRS.clear()
     rnd0 = random.Random(seed * 7919 + 1)
@@ -97,3 +111,9 @@ def run(rep, tier, seed, replay):
            "%(n)d cases in pairs: a stream of multi-sample lines with mixed types hitting type-filtered rules (static and $n labels, honor_labels on/off, tag keys that "
            "collide after escaping, extended aggregation, sampled timers) through caches none/LRU/RR of size 1-3, and the same samples sent one per line without cache; "
            "final scrapes must coincide and both must equal the proved model; non-trivial = grouped stream; distinct by op sequence")
+
+
+def run(rep, tier, seed, replay):
+    _run(rep, tier, seed, replay)
+    if not replay:
+        genproof.digest_obligation(rep, "a digest of the label names / values stands in for them as the identity of a series")
